@@ -71,9 +71,9 @@ def too_big(ex):
 
 
 DIAL = {
-    "8051": dict(cpu="8051", gran=1, data="db", res="ds", segs={"code": "code", "data": "xdata"},
+    "8051": dict(cpu="8051", cpus=["8051", "8052"], gran=1, data="db", res="ds", segs={"code": "code", "data": "xdata"},
                  segno={"code": 1, "data": 4}),
-    "c25": dict(cpu="320c25", gran=2, data="word", res="res", segs={"code": "code", "data": "data"},
+    "c25": dict(cpu="320c25", cpus=["320c25", "320c26"], gran=2, data="word", res="res", segs={"code": "code", "data": "data"},
                 segno={"code": 1, "data": 2}),
 }
 TABLE_AT = 30000
@@ -128,6 +128,8 @@ def render(beh, dname, obs=None, cpu_stmt=True):
             lines.append("\tphase %d" % st["a"])
         elif a == "DEPHASE":
             lines.append("\tdephase")
+        elif a == "CPU":
+            lines.append("\tcpu %s" % d["cpus"][st["c"]])
         elif a == "SAVE":
             lines.append("\tsave")
         elif a == "RESTORE":
@@ -213,7 +215,7 @@ def replay_generated(rep, bld, tier):
     for (beh, dname, src, exp, table), res in zip(jobs, results):
         rep.evaluated()
         rep.distinct(src, len(set(st["k"] for st in beh)) >= 3)
-        prog = [{kk: vv for kk, vv in st.items() if kk in ("k", "n", "a", "d", "s", "u", "val", "len", "load", "exec", "seg")}
+        prog = [{kk: vv for kk, vv in st.items() if kk in ("k", "n", "a", "d", "s", "u", "c", "val", "len", "load", "exec", "seg")}
                 for st in beh]
         if res.timeout or res.sig is not None:
             rep.violation("assembler crashed/hung (rc=%s sig=%s)" % (res.rc, res.sig), case=prog, files={"a.asm": src})
